@@ -67,6 +67,12 @@ def expected(ref, p):
     return ("partial", annot(node), tuple(p[:i]), tuple(rem), sim)
 
 
+def _plain(x):
+    if isinstance(x, (list, tuple)):
+        return [_plain(i) for i in x]
+    return bytes(x) if isinstance(x, (bytes, bytearray)) else x
+
+
 def hops_below(ref, q, full):
     """number of child hops the canonical trie crosses from the node at q down path `full`"""
     return sum(1 for prefix, _ in ref.path_nodes(full) if len(prefix) > len(q))
@@ -125,7 +131,9 @@ def run_case(case, ctx):
                 subs.add(rest + (1,))
         for s in node.sub_segments:
             subs.add(tuple(int(x) for x in s))
-        for s in sorted(subs):
+        # every sub-path is asked twice from the SAME node object: shallow-to-deep, then
+        # deep-to-shallow - the node belongs to the caller and must come out of it unchanged
+        for s in sorted(subs) + sorted(subs, reverse=True):
             db.reset_counts()
             a = describe(cut(t.traverse_from, node, s, expect=(TraversedPartialPath,)))
             reads = db.reads
@@ -139,6 +147,11 @@ def run_case(case, ctx):
                 raise Violation("traverse-from-reads", "traverse_from(node@%r, %r) issued %d database reads for %d child hop(s)" % (q, s, reads, hops))
             ctx.count("traverse_from")
             ctx.count("read_bound_checks")
+        fresh = cut(t.traverse, q, expect=(TraversedPartialPath,))
+        if isinstance(fresh, Raised) or _plain(node.raw) != _plain(fresh.raw) or hs.pub(node) != hs.pub(fresh):
+            raise Violation("traverse-from-mutated-node", "after the traverse_from calls the caller's node object for %r no longer equals traverse(%r): raw %r vs %r" % (
+                q, q, _plain(node.raw), None if isinstance(fresh, Raised) else _plain(fresh.raw)))
+        ctx.count("caller_node_unchanged_checks")
     ctx.evaluated()
     ctx.shape((ref.shape(), case.get("prune")), len(model) >= 2)
     for f in ref.features():
